@@ -324,9 +324,18 @@ def run_lines(exe, lines, timeout=1200, shards=8, env=None, per_shard=50):
     n = max(1, min(shards, len(lines) // per_shard + 1))
     chunks = [lines[i::n] for i in range(n)]
     procs = []
+    def limit():
+        # a defective implementation must not take the machine down (e.g. a huge allocation):
+        # cap each driver's address space; an aborted driver shows up as DRIVER-DIED lines
+        import resource
+        try:
+            resource.setrlimit(resource.RLIMIT_AS, (8 << 30, 8 << 30))
+        except Exception:
+            pass
+
     for ch in chunks:
         p = subprocess.Popen([exe], stdin=subprocess.PIPE, stdout=subprocess.PIPE, stderr=subprocess.PIPE,
-                             text=True, env=env or ENV)
+                             text=True, env=env or ENV, preexec_fn=limit)
         procs.append((p, ch))
     # write/collect
     import threading
